@@ -23,7 +23,7 @@
 (* the executor command CT; final bytes, offset and the walk must agree.   *)
 (***************************************************************************)
 EXTENDS CanBuild, Json, FiniteSets
-CONSTANTS Ctrls, MaxMsgs, Lens, NBg
+CONSTANTS Ctrls, MaxMsgs, Lens, NBg, MaxCloses
 VARIABLES n, ctrl, msgs, used, phase, arena0, closedAt      \* closedAt: message counts at which the container was closed so far
 avars == <<mem, hb, out, step, n, ctrl, msgs, used, phase, arena0, closedAt>>
 ASSUME Buf = {1}
@@ -91,7 +91,7 @@ Close ==
 \* a closed container is taken up again (one more message fits into the datagram): further messages are appended behind the
 \* ones already there and the data length is written a second time over its earlier non-zero value
 Reopen ==
-  /\ phase = "closed" /\ Len(closedAt) < 2 /\ Len(msgs) < MaxMsgs
+  /\ phase = "closed" /\ Len(closedAt) < MaxCloses /\ Len(msgs) < MaxMsgs
   /\ phase' = "open" /\ n' = n + 1 /\ step' = [op |-> "reopen"]
   /\ UNCHANGED <<mem, hb, out, ctrl, msgs, used, arena0, closedAt>>
 
